@@ -23,6 +23,9 @@ Verdict(c) ==
     [] c.fn = "rechunk_spec" -> RechunkSpecVerdict(c)
     [] c.fn = "joint" -> JointVerdict(c)
     [] c.fn = "diamond" -> DiamondVerdict(c)
+    [] c.fn = "block_info2" -> (IF BlockInfo2Verdict(c) # "ok" THEN BlockInfo2Verdict(c)
+                                ELSE IF c.got.kind = "raised" THEN "ok-computation-raised"
+                                ELSE IF ~SameValue(c.got, c.expect) THEN "map-blocks-value-differs" ELSE "ok")
     [] c.fn = "unknown" -> UnknownVerdict(c)
     [] c.fn = "entry" -> EntryVerdict(c)
     [] c.fn = "io" -> IOVerdict(c)
